@@ -32,8 +32,8 @@ class Scn:
     def job(self, jid, prio="N", steps=()):
         self.jobs[jid] = dict(prio=prio, ord=len(self.jobs) + 1, steps=list(steps)); return jid
     def proc(self, hid, script, size, fate, canint=True, ignint=False, release=False, mustrel=False, missing=False, badctl=False,
-             ctl=True, inherit=True, via="own", env=(), cmd="", slowfin=0):
-        self.procs[hid] = dict(script=script, size=size, fate=fate, canint=canint, ignint=ignint, release=release, mustrel=mustrel,
+             ctl=True, inherit=True, via="own", env=(), cmd="", slowfin=0, untilcancel=False):
+        self.procs[hid] = dict(script=script, size=size, fate=fate, canint=canint, ignint=ignint, release=release, mustrel=mustrel, untilcancel=untilcancel,
                                missing=missing, badctl=badctl, ctl=ctl, inherit=inherit, via=via, env=list(env), cmd=cmd, slowfin=slowfin)
         return hid
     def name(self, jid): return "n%02d" % self.jobs[jid]["ord"]
@@ -45,7 +45,7 @@ class Scn:
         return dict(lanes=1 if self.serial else self.lanes, alg="fifo" if self.serial else self.alg, bgmax=self.bgmax, serial=self.serial,
                     client=[], auxcancel=False,
                     jobs={j: dict(prio=d["prio"], ord=d["ord"], steps=vis(d["steps"])) for j, d in self.jobs.items()},
-                    procs={h: {k: p[k] for k in ("size", "fate", "canint", "ignint", "release", "mustrel", "missing", "badctl")} for h, p in self.procs.items()})
+                    procs={h: {k: p[k] for k in ("size", "fate", "canint", "ignint", "release", "mustrel", "missing", "badctl", "untilcancel")} for h, p in self.procs.items()})
     def text(self):
         st = lambda steps: ",".join(o if a in ("", None) else "%s:%s" % (o, a) for (o, a) in steps)
         out = ["scenario %s lanes=%d alg=%s bgmax=%d serial=%d bigenv=%d watchdog=%d" % (self.id, self.lanes, self.alg, self.bgmax, int(self.serial), self.bigenv, self.watchdog),
@@ -294,17 +294,31 @@ def fam_release(rng, sid):
 def fam_cancel(rng, sid):
     """cancellation against running and about-to-start children: interruptible, SIGINT-ignoring and non-interruptible
     children that only end when signalled, spawns racing the cancellation (large base environment widens the window
-    between the queue's check and the spawn), spawns after it"""
+    between the queue's check and the spawn), spawns after it; children that close every polled descriptor and keep
+    running until after the cancellation (the queue sits in wait4() when it comes)"""
     s = Scn(sid, "cancel", lanes=rng.randint(1, 4), alg=rng.choice(["fifo", "name"]), bigenv=rng.choice([0, 0, 2000, 6000]))
     nj = rng.randint(1, 5); slow = rng.random() < 0.2      # slow: children that must be SIGKILLed after the timeout
+    detached = False
     for i in range(nj):
         h = "c%d" % i
-        kind = rng.choice(["hang", "hang", "sleep", "quick", "igno", "noint"] if slow else ["hang", "hang", "sleep", "quick", "quick"])
+        kind = rng.choice(["hang", "hang", "sleep", "quick", "igno", "noint"] if slow else ["hang", "hang", "sleep", "quick", "quick", "detach", "detach", "detachrel", "stay"])
+        if kind in ("detach", "detachrel", "stay"): detached = True
         pre = rng.choice([0, 0, 100, 5000])
         if kind == "hang": s.proc(h, "out:%d;hang" % pre, pre, "hang")
         elif kind == "sleep":
             code = rng.choice([0, 4]); s.proc(h, "out:%d;sleep:%d;exit:%d" % (pre, rng.choice([2, 10, 40]), code), pre, "exit%d" % code)
         elif kind == "quick": s.proc(h, "out:%d;exit:0" % pre, pre, "exit0", via=rng.choice(["own", "queue", "wrap"]))
+        elif kind == "detach":
+            # closes every descriptor the queue polls and keeps running: the queue is in wait4() when the cancellation
+            # comes; the child's own end is only reachable after cancelAllJobs has returned (seeded change C16_4)
+            ctl = rng.random() < 0.7; code = rng.choice([0, 0, 3])
+            s.proc(h, "out:%d;closeout;%swaitfile:%%T/cancelled;exit:%d" % (pre, "closectl;" if ctl else "", code), pre, "exit%d" % code,
+                   ctl=ctl, untilcancel=True, canint=rng.random() < 0.85)
+        elif kind == "detachrel":
+            s.bgmax = max(s.bgmax, rng.randint(0, 2))
+            s.proc(h, "out:%d;release;closeout;waitfile:%%T/cancelled;exit:0" % pre, pre, "exit0", release=True, untilcancel=True)
+        elif kind == "stay":
+            s.proc(h, "out:%d;waitfile:%%T/cancelled;exit:0" % pre, pre, "exit0", untilcancel=True, via=rng.choice(["own", "queue"]))
         elif kind == "igno": s.proc(h, "ignint;out:%d;hang" % pre, pre, "hang", ignint=True)
         else: s.proc(h, "out:%d;hang" % pre, pre, "hang", canint=False)
         steps = [("sleep", rng.choice([0, 0, 200, 1000, 3000])), ("spawn", h)]
@@ -313,7 +327,7 @@ def fam_cancel(rng, sid):
         s.job("j%d" % i, prio=rng.choice(["N", "H"]), steps=steps)
         s.main.append(("add", "j%d" % i))
     s.shuffle_ords(rng)
-    delay = rng.choice([0, 200, 1000, 3000, 8000, 20000])
+    delay = rng.choice([3000, 8000, 20000, 40000] if detached else [0, 200, 1000, 3000, 8000, 20000])
     if rng.random() < 0.5: s.main += [("sleep", delay), ("cancel", "")]
     else:
         s.aux = [("sleep", delay), ("cancel", "")]; s.main.append(("joinaux", ""))
